@@ -283,6 +283,41 @@ Section StepMonitors.
     | _, _ => true
     end.
 
+  (** C09 with delegated phases: whenever an active ObjectSet pass obtained the phase object of one of its delegated
+      phases (controlled by it, not being deleted), the phase object's spec.paused equals the ObjectSet's paused
+      state at the end of the pass or the pass sent the pause / unpause patch - whatever the phase object's status
+      says (a paused ObjectSet pauses a phase that has not reported yet).
+      [m_pause_all]: for every delegated phase; [m_pause]: for the phases the phase loop reached, i.e. up to and
+      including the phase the pass named as failing. *)
+  Definition failing_phase : option N :=
+    last (flat_map (fun e => match e with SMeta (MStatus _ _ _ _ f _) => [f] | _ => [] end) evs) None.
+  Fixpoint upto_failing (phs : list phase) (n : N) : list phase :=
+    match phs with
+    | [] => []
+    | ph :: r => if ph_name ph =? n then [ph] else ph :: upto_failing r n
+    end.
+  Definition pause_synced (s : oset) (ph : phase) : bool :=
+    let desired := lifecycle_eqb (os_life s) LPaused in
+    match last_seen (join s ph) evs None with
+    | Some (Some cur) =>
+        negb (controlled_by_uid (op_owners cur) (oi_uid (os_id s))) || op_deleting cur ||
+        Bool.eqb (op_paused cur) desired ||
+        existsb (fun e => match e with SPhase (PPause m pa _) => (m =? join s ph) && Bool.eqb pa desired | _ => false end) evs
+    | _ => true end.
+  Definition m_pause_all : bool :=
+    match ds_step o, ds_pre_set o with
+    | DSet _ _ _, Some s => negb (is_activeb s) || negb (names_nodup s) || forallb (pause_synced s) (delegated s)
+    | _, _ => true
+    end.
+  Definition m_pause : bool :=
+    match ds_step o, ds_pre_set o with
+    | DSet _ _ _, Some s =>
+        negb (is_activeb s) || negb (names_nodup s) ||
+        forallb (pause_synced s)
+                (filter ph_class (match failing_phase with Some n => upto_failing (os_phases s) n | None => os_phases s end))
+    | _, _ => true
+    end.
+
   (** The ObjectSetPhase controller: nothing at all for a phase object of another class (or none); otherwise only
       requests on its own object and on the objects its spec lists (at their defaulted keys). *)
   Definition m_class : bool :=
